@@ -85,9 +85,7 @@ for i in range(N):
 allnames = set().union(*[c[3] for c in cases]) if lang == "python" else None
 mans = [norm(a) for a in common.model([c[0] for c in cases], names=allnames)]
 rans = [norm(a) for a in common.runner([c[1] for c in cases])]
-amb = sum(1 for a in mans if "ambiguous" in a)
-diffs = [i for i, (a, b) in enumerate(zip(mans, rans)) if "ambiguous" not in a and a != b]
-print("ambiguous (hash-order dependent, skipped):", amb)
+diffs = [i for i, (a, b) in enumerate(zip(mans, rans)) if a != b]
 from collections import Counter
 print("cases", N, "diffs", len(diffs), Counter(list(a.keys())[0] for a in rans))
 for i in diffs[:3]:
